@@ -73,7 +73,9 @@ class Convert(Sub):
     name = "convert"
     n = {"quick": 10000, "thorough": 250000}
     shards = {"quick": 3, "thorough": 8}
-    rule = "non-trivial: instant within +-gap of a transition of a zone involved, or zones differ in offset at the instant"
+    rule = ("targets named in every documented way (name, Timezone, FixedTimezone, ZoneInfo, datetime.timezone, a number of hours) through in_timezone / in_tz / astimezone / "
+            "from_timestamp / instance(tz=); A->B->C == A->C; alias values (other pass of an overlap); non-trivial: instant within +-gap of a transition of a zone involved, "
+            "or zones differ in offset at the instant")
 
     def describe(self, case):
         return {"value": T.render(case["u"], case["a"]).isoformat()}
